@@ -678,6 +678,10 @@ class RunGen:
         self.mixed_ifexp = 0
         self.augs = 0
         self.used_funcs = set()
+        self.comps = 0            # list comprehensions
+        self.comp_shadow = {}     # kind of the enclosing variable the comprehension target shadows -> count
+        self.comp_shadow_falsy = 0  # ... whose parser-known constant is falsy (0, 0.0, False, "") while its run-time value is not
+        self.accumulators = 0
 
     def newname(self, prefix="v"):
         self.fresh += 1
@@ -715,7 +719,7 @@ class RunGen:
         if d <= 0 or rng.random() < 0.35:
             if rd["float"] and rng.random() < 0.5:
                 return rng.choice(rd["float"])
-            return repr(rng.choice([0.5, 2.5, 1.0, 7.75, 0.25, 3.0, 12.5]))
+            return repr(rng.choice([0.5, 2.5, 1.0, 7.75, 0.25, 3.0, 12.5, 0.0]))
         r = rng.random()
         if r < 0.30:
             return f"({self.int_e(d - 1, rd)} * {rng.choice(['0.5', '2.5', '1.0'])})"
@@ -835,11 +839,95 @@ class RunGen:
         st["assigned"].add(x)
         return [("assign", x, src), ("write", x)]
 
+    # ---- list comprehensions: the target is typed int while the element is translated and the enclosing scope's
+    #      knowledge about a same-named variable must be back afterwards (the target does not leak in Python 3)
+    def _new(self, st, kind, nested):
+        x = self.newname()
+        self.decl[x] = kind
+        st["known"].add(x)
+        if nested:
+            st["nested_names"].add(x)
+        st["assigned"].add(x)
+        st["label_ok"].add(x)
+        return x
+
+    def derive(self, st, x, nested):
+        """a NEW variable computed from x (so that its declaration is typed from the label of x), written out"""
+        rng = self.rng
+        K = self.decl[x]
+        src = {"int": [f"({x} + 1)", f"({x} * 3)", x], "float": [f"({x} * 2)", f"({x} + 0.5)", x, f"({x} * 3)"],
+               "bool": [f"(not {x})", x], "str": [f"({x} + \"!\")", x]}[K]
+        v = self._new(st, K, nested)
+        return [("assign", v, rng.choice(src)), ("write", v)]
+
+    def comp(self, st, nested, shadow=None):
+        rng = self.rng
+        rd = self.rd(st)
+        cands = sorted(n for n in st["known"] if n in self.decl)
+        if shadow is None and cands and rng.random() < 0.65:
+            shadow = rng.choice(cands)
+        t = shadow if shadow is not None else self.newname("c")
+        rd2 = {k: [n for n in v if n != t] for k, v in rd.items()}
+        rd2["int"] = rd2["int"] + [t, t]
+        ek = rng.choice(["int", "int", "float", "float", "bool"])
+        elt = self.expr(ek, rng.choice([1, 1, 2]), rd2)
+        if t not in elt and rng.random() < 0.7:
+            elt = {"int": f"({t} + {elt})", "float": f"({t} * 0.5 + {elt})", "bool": f"({t} > 1)"}[ek]
+        n = rng.choice([1, 2, 3, 4])
+        self.fresh += 1
+        L = f"L{self.fresh}"
+        out = [("assign", L, f"[{elt} for {t} in range({n})]"), ("write", f"{L}[{rng.randrange(n)}]")]
+        self.comps += 1
+        if shadow is not None:
+            K = self.decl[shadow]
+            self.comp_shadow[K] = self.comp_shadow.get(K, 0) + 1
+            if shadow in st["assigned"] and shadow in st["label_ok"]:
+                out += self.derive(st, shadow, nested)
+        return out
+
+    ZERO = {"int": ["0", "0", "5"], "float": ["0.0", "0.0", "2.25"], "bool": ["False", "False", "True"], "str": ['""', '""', '"ab"']}
+
+    def accumulator(self, st, nested):
+        """acc = <constant, mostly a falsy one>; updated only inside a loop / branch body (so that whatever the parser
+        knows about its value is stale); then a comprehension whose target re-uses the name; then a new variable
+        derived from it"""
+        rng = self.rng
+        K = rng.choice(["float", "float", "int", "bool", "str"])
+        init = rng.choice(self.ZERO[K])
+        acc = self._new(st, K, nested)
+        upd = {"float": f"({acc} + {rng.choice(['0.5', '0.25', '1.5'])})", "int": f"({acc} + {rng.choice(['1', '2', '7'])})",
+               "bool": f"(not {acc})", "str": f"({acc} + \"x\")"}[K]
+        out = [("assign", acc, init)]
+        shape = rng.random()
+        if shape < 0.45:
+            i = self.newname("i")
+            self.decl[i] = "int"
+            out.append(("for", i, str(rng.choice([1, 3])), [("assign", acc, upd)]))
+        elif shape < 0.7:
+            k = self.newname("k")
+            self.decl[k] = "int"
+            st["assigned"].add(k); st["label_ok"].add(k)
+            out += [("assign", k, "0"), ("while", f"{k} < {rng.choice([1, 3])}", [("assign", acc, upd), ("assign", k, f"{k} + 1")])]
+        else:
+            out.append(("if", [("1 > 0", [("assign", acc, upd)])], None))
+        out.append(("write", acc))
+        self.accumulators += 1
+        if init in ("0", "0.0", "False", '""'):
+            self.comp_shadow_falsy += 1
+        out += self.comp(st, nested, shadow=acc)
+        return out
+
     def block(self, st, depth, nested, n=None):
         rng = self.rng
         out = []
         for _ in range(n if n is not None else rng.choice([2, 3, 4])):
             r = rng.random()
+            if not nested and rng.random() < 0.10:
+                out += self.accumulator(st, nested)
+                continue
+            if not nested and rng.random() < 0.10:
+                out += self.comp(st, nested)
+                continue
             if depth > 0 and r < 0.2:
                 brs = []
                 for _ in range(rng.choice([1, 1, 2])):
@@ -985,6 +1073,7 @@ WITNESSES = {
     "F-C02-boolop-typed-bool": {"body": "n = 0\nv = n or 5\nmon.write(v)\n", "loops": 0},
     "F-C02-stale-promotion-type": {"body": "mode = 2\nif mode > 1:\n    gain = 1.5\nelse:\n    gain = 0.5\ndef f(p):\n    if p > 1:\n        out = 1\n    else:\n        out = 2\n    return out\ndef g(p):\n    k = 0\n    while k < 2:\n        out = p * 0.5\n        k = k + 1\n    return out\na = f(3)\nb = g(3)\nmon.write(a)\nmon.write(b)\n", "loops": 0},
     "F-C02-param-declared-from-last-label": {"body": "def f(p):\n    q = p * 2\n    p = 1\n    return q\nx = 2.5\na = f(x)\nmon.write(a)\n", "loops": 0},
+    "F-C02-widened-variant-overwritten": {"body": "def blend(a, b):\n    w = a * 2\n    a = a + b\n    return a + w\nx = 0.75\ny = 0.25\np = blend(x, y)\nq = blend(1, y)\nmon.write(p)\nmon.write(q)\n", "loops": 0},
 }
 
 
@@ -1024,6 +1113,10 @@ def part_c(ctx, stats):
                                "helper_calls": sum(g.calls for g in gens),
                                "augmented_assignments": sum(g.augs for g in gens),
                                "bool_int_conditional_expressions": sum(g.mixed_ifexp for g in gens),
+                               "list_comprehensions": sum(g.comps for g in gens),
+                               "comprehension_target_shadows_a_variable_of_kind": {k: sum(g.comp_shadow.get(k, 0) for g in gens) for k in ("int", "float", "bool", "str")},
+                               "accumulators_updated_only_in_child_scopes": sum(g.accumulators for g in gens),
+                               "shadowed_accumulators_with_a_falsy_known_constant": sum(g.comp_shadow_falsy for g in gens),
                                "programs_with_main_loop": sum(1 for l in loops if l)}
     stats["value_distinct_nontrivial"] = len(nontrivial)
     # known findings: replay every listed witness on the real code
